@@ -24,6 +24,8 @@ ELEMENTS = {
     'raw_tag': ('Tag', '{%raw%}', 'raw', []),
     'endraw': ('Tag', '{%endraw%}', 'endraw', []),
     'endraw_arg': ('Tag', '{%endraw foo%}', 'endraw', ['foo']),
+    'endif_arg': ('Tag', '{%endif foo%}', 'endif', ['foo']),
+    'endcomment_arg': ('Tag', '{%endcomment foo%}', 'endcomment', ['foo']),
     'unknown': ('Tag', '{%bogus%}', 'bogus', []),
 }
 
@@ -266,3 +268,79 @@ def describe_renderable(st, r):
     if isinstance(v, Abs): return ('abs', v.name)
     if isinstance(v, Adt): return (v.ty,) + tuple(repr(x) if not isinstance(x, StrV) else x.concrete() for x in v.items)
     return repr(v)
+
+
+# ============================================================================ streams whose tags carry real argument token trees (for the real stdlib block parsers)
+def token_tree(src, a, b, kind):
+    """the Pair tree pest builds for a one-word tag argument: FilterChain(Value(Variable(Identifier))) / FilterChain(Value(Literal(IntegerLiteral)))"""
+    if kind == 'var':
+        return mk_pair(src, 'FilterChain', a, b, [mk_pair(src, 'Value', a, b, [mk_pair(src, 'Variable', a, b, [mk_pair(src, 'Identifier', a, b)])])])
+    if kind == 'lit':
+        return mk_pair(src, 'FilterChain', a, b, [mk_pair(src, 'Value', a, b, [mk_pair(src, 'Literal', a, b, [mk_pair(src, 'IntegerLiteral', a, b)])])])
+    raise ValueError(kind)
+
+
+def block_elements(name, start_args, inner):
+    """element table for one real block: its start tag (well-formed arguments), its end tag with and without arguments, its inner tags, and generic elements"""
+    el = {
+        'raw': ('Raw', 'txt ', None, []),
+        'invalid': ('InvalidLiquid', '{', None, []),
+        'assign': ('Tag', '{%assign a=1%}', 'assign', []),
+        'unknown': ('Tag', '{%bogus%}', 'bogus', []),
+        'start': ('Tag', '{%' + name + ''.join(' ' + t for t, _ in start_args) + '%}', name, start_args),
+        'end': ('Tag', '{%end' + name + '%}', 'end' + name, []),
+        'end_arg': ('Tag', '{%end' + name + ' foo%}', 'end' + name, [('foo', 'var')]),
+    }
+    for iname, iargs in inner:
+        el[iname] = ('Tag', '{%' + iname + ''.join(' ' + t for t, _ in iargs) + '%}', iname, iargs)
+    return el
+
+
+def build_stream2(kinds, elements):
+    src = ''.join(elements[k][1] for k in kinds)
+    pairs = []; pos = 0
+    for k in kinds:
+        rule, text, name, toks = elements[k]
+        a, b = pos, pos + len(text)
+        if rule == 'Tag':
+            ident = mk_pair(src, 'Identifier', a + 2, a + 2 + len(name))
+            cur = a + 2 + len(name); tps = []
+            for t, kind in toks:
+                i = src.index(t, cur, b)
+                tps.append(token_tree(src, i, i + len(t), kind)); cur = i + len(t)
+            inner = mk_pair(src, 'TagInner', a + 2, b - 2, [ident] + tps)
+            pairs.append(mk_pair(src, 'Tag', a, b, [inner]))
+        else:
+            pairs.append(mk_pair(src, rule, a, b))
+        pos = b
+    pairs.append(mk_pair(src, 'EOI', pos, pos))
+    return src, pairs
+
+
+def run_parse2(ex, P, st, kinds, elements, block_name, block_struct, depth=0):
+    """like run_parse, with the real block `block_struct` registered as `block_name` and the abstract tag `assign`"""
+    src, pairs = build_stream2(kinds, elements)
+    plugins = Plugins(P, st)
+    blocks = MapV((block_name,), (st.ref(Adt(block_struct, None, []), True),), 'HashMap')
+    tags = MapV(('assign',), (st.ref(plugins.tag_plugin('assign'), True),), 'HashMap')
+    lang = st.ref(Adt('Language', None, [Adt('PluginRegistry', None, [blocks], ['plugins']), Adt('PluginRegistry', None, [tags], ['plugins']),
+                                          Adt('PluginRegistry', None, [MapV((), (), 'HashMap')], ['plugins'])], ['blocks', 'tags', 'filters']))
+    it = st.ref(mk_list_iter(pairs), True)
+    f_from = P.find(r'^fn .*<impl at crates/core/src/parser/parser.rs:\d+:\d+: \d+:\d+>::from\(_1: pest::iterators::Pair<.*\) -> BlockElement<', 'core')
+    f_parse_pair = P.find_method('BlockElement', 'parse_pair', None, 'core')
+    from mirsym.models.iters import step
+    def loop(s, acc):
+        itv = s.deref(it)
+        for s1, item, d2 in list(step(ex, s, itv.data, depth)):
+            s1.store(it, Py('iter', d2))
+            if item is None:
+                yield s1, 'panic', 'top-level loop ran past EOI'; continue
+            if item.data[1] == 'EOI':
+                yield s1, 'ret', ('ok', acc); continue
+            for s2, k2, be in ex.run(f_from, [item], s1):
+                if k2 != 'ret': yield s2, k2, be; continue
+                for s3, k3, r in ex.run(f_parse_pair, [be, it, lang], s2):
+                    if k3 != 'ret': yield s3, k3, r; continue
+                    if r.variant == 'Err': yield s3, 'ret', ('err',)
+                    else: yield from loop(s3, acc + [r.items[0]])
+    yield from loop(st, [])
